@@ -143,6 +143,30 @@ inline bool build(AJ::JsonVariant dst, const MVal& m, const BuildOpt& o = BuildO
   return false;
 }
 
+// Upper bound on the pool slots the library needs to hold m (root excluded):
+// one per element, two per member, one extension slot per 64-bit number.
+inline size_t slot_demand(const MVal& m, bool is_root = true) {
+  size_t n = is_root ? 0 : 1;
+  if (m.k == MVal::Int && m.mag > 0x7FFFFFFFull) n++;
+  if (m.k == MVal::Float && kUseDouble && (double)(float)m.f != m.f && m.f == m.f) n++;
+  for (auto& e : m.a) n += slot_demand(e, false);
+  for (auto& e : m.o) n += 1 + slot_demand(e.second, false);
+  return n;
+}
+inline size_t longest_string(const MVal& m) {
+  size_t n = 0;
+  if (m.k == MVal::Str || m.k == MVal::Raw) n = m.s.size();
+  if (m.k == MVal::Bin) n = m.s.size() + 5;
+  if (m.k == MVal::Ext) n = m.s.size() + 6;
+  for (auto& e : m.a) n = std::max(n, longest_string(e));
+  for (auto& e : m.o) n = std::max(std::max(n, e.first.size()), longest_string(e.second));
+  return n;
+}
+// true when the configured capacity limits cannot be the reason for a failure
+inline bool within_capacity(const MVal& m) {
+  return slot_demand(m) <= kMaxSlots && longest_string(m) <= kMaxStringLength;
+}
+
 // The value a correct library holds after build(): set(double) keeps the
 // double; with USE_DOUBLE=0 everything is rounded to float.  Ints unchanged.
 inline MVal stored_form(const MVal& m) {
